@@ -7,7 +7,7 @@ import copy
 import networkx as nx
 
 from .bond import _create_compatible_bond_text
-from .core import _GLOBAL_RNG, BigSMILESbase
+from .core import _GLOBAL_RNG, BigSMILESbase, find_mixture_separator
 from .mixture import Mixture
 from .stochastic import Stochastic
 from .stochastic_atom_graph import StochasticAtomGraph
@@ -40,8 +40,8 @@ class Molecule(BigSMILESbase):
         self.mixture = None
         # TODO: find and verify non-extension non-bonds '.'
         # without confusing them with floating point numbers
-        if stochastic_text.find(".|") >= 0:
-            start = stochastic_text.find(".|")
+        if find_mixture_separator(stochastic_text) >= 0:
+            start = find_mixture_separator(stochastic_text)
             end = stochastic_text.find("|", start + 3) + 1
             mixture_text = stochastic_text[start:end]
             end_text = stochastic_text[end:].strip()
